@@ -86,7 +86,9 @@ def trivial(c, out):
 
 def gen_cases(ctx, n_each):
     rng = ctx.rng
-    cases = {"diff-derived": [], "random-hunks": [], "create-delete": [], "stacks": []}
+    cases = {"diff-derived": [], "shifted-repetitive": [], "random-hunks": [], "create-delete": [], "stacks": []}
+    for _ in range(n_each // 2):
+        cases["shifted-repetitive"].append(l1gen.gen_shifted_repetitive(rng))
     for _ in range(n_each * 3):
         cases["diff-derived"].append(l1gen.gen_modify(rng))
     for _ in range(n_each * 2):
